@@ -221,6 +221,71 @@ Section Shims.
      sequence number *)
   Definition header_of (m : emode) (e : vrec cst) : Prop :=
     exists c0 c1 lenb, dec_header m c0 (vseq e) (vraw e) = (c1, vfirst e, lenb).
+
+  (* ---- C01 at byte level: what the honest sender put under its MACs ------------------------------ *)
+  (* one entry per frame written by send_packet: sequence number, the bytes the integrity check of the
+     shim class covers (Basic: plain text length || packet; ETM: length || cipher text; GCM: length ||
+     cipher text as associated data + cipher text; chacha: encrypted length || cipher text), the tag
+     attached, the plain packet (padlen || payload || padding), the bytes written, and the cipher state
+     before / after *)
+  Record srec := mkS { sseq : Z; scov : bytes; smac : bytes; spkt : bytes; swire : bytes; scst0 : cst; scst1 : cst }.
+
+  Definition sent_rec (m : emode) (c : cst) (sq : Z) (payload padding : bytes) : srec :=
+    let packet := zlen padding :: payload ++ padding in
+    let hdr := u32 (zlen packet) in
+    let '(c', out, mac) := enc_packet m c sq hdr packet in
+    mkS sq (match m with Basic => hdr ++ packet | _ => out end) mac packet (out ++ mac) c c'.
+
+  Fixpoint send_log (m : emode) (c : cst) (sq : Z) (pkts : list (bytes * bytes)) : list srec :=
+    match pkts with
+    | [] => []
+    | (payload, padding) :: r =>
+        let e := sent_rec m c sq payload padding in
+        e :: send_log m (scst1 e) ((sq + 1) mod M32) r
+    end.
+
+  (* sender state (cipher state, _send_seq) after a list of packets *)
+  Definition sender_after (m : emode) (c : cst) (sq : Z) (pkts : list (bytes * bytes)) : cst * Z :=
+    fold_left (fun st p => (scst1 (sent_rec m (fst st) (snd st) (fst p) (snd p)), (snd st + 1) mod M32)) pkts (c, sq).
+
+  (* UNFORGEABLE on this run: every (sequence number, covered bytes, tag) triple that the receiver's
+     verification accepted for a delivery occurs in the sender's log - the adversary may replay,
+     reorder, cut and splice what the sender produced, but has not minted a new valid tag.  A premise
+     about the run, not an axiom about the tag function. *)
+  Definition unforgeable (m : emode) (slog : list srec) (s : estate cst) : Prop :=
+    Forall (fun e => exists r, In r slog /\ sseq r = vseq e /\ scov r = covered m e /\ smac r = vmac e) (elog s).
+
+  (* the laws of the primitives the byte-level integrity theorem needs, per shim class (bs = block size):
+     Basic  - decryption preserves length; ENcrypting what was DEcrypted from the same state gives the
+              cipher text back and ends in the same state (block-aligned data), i.e. cipher text is
+              determined by state and plain text; decrypting an aligned first block and then the aligned
+              rest equals decrypting at once
+     ETM    - encryption preserves length; decryption inverts encryption from the same state
+     GCM    - header in clear in front of the cipher text; verify_and_decrypt of what encrypt_and_sign
+              produced from the same state returns the data and the same next state
+     chacha - decrypt_header inverts the header encryption; verify_and_decrypt inverts encrypt_and_sign
+              under the same sequence number *)
+  Definition mode_laws (bs : Z) (m : emode) : Prop :=
+    match m with
+    | Basic =>
+        (forall c x, zlen (snd (cdec c x)) = zlen x) /\
+        (forall c x, zlen x mod bs = 0 -> cenc c (snd (cdec c x)) = (fst (cdec c x), x)) /\
+        (forall c a b, zlen a mod bs = 0 -> zlen b mod bs = 0 ->
+           cdec c (a ++ b) = (fst (cdec (fst (cdec c a)) b), snd (cdec c a) ++ snd (cdec (fst (cdec c a)) b)))
+    | ETM =>
+        (forall c x, zlen (snd (cenc c x)) = zlen x) /\
+        (forall c x, zlen x mod bs = 0 -> cdec c (snd (cenc c x)) = (fst (cenc c x), x))
+    | GCM =>
+        forall c h d, zlen h = 4 ->
+          let r := gcm_enc c h d in
+          zlen (fst (snd r)) = 4 + zlen d /\ firstn 4 (fst (snd r)) = h /\
+          gcm_dec c h (skipn 4 (fst (snd r))) (snd (snd r)) = (fst r, Some d)
+    | Chacha =>
+        forall sq h d, zlen h = 4 ->
+          let r := cc_enc sq h d in
+          zlen (fst r) = 4 + zlen d /\ cc_hdr sq (firstn 4 (fst r)) = h /\
+          cc_dec sq (firstn 4 (fst r)) (skipn 4 (fst r)) (snd r) = Some d
+    end.
 End Shims.
 
 (* send_packet: `if self._send_encryption and pkttype > MSG_KEX_LAST: self.send_packet(MSG_IGNORE, String(b''))`
@@ -282,3 +347,13 @@ Definition toy_send_frame (m : emode) (tl : nat) (k : Z) :=
 
 Definition toy_send_stream (m : emode) (tl : nat) (k : Z) :=
   send_stream Z (toy_crypt k) (toy_tag tl k) (toy_gcm_enc tl k) (toy_cc_enc tl k) m.
+
+Definition toy_send_log (m : emode) (tl : nat) (k : Z) :=
+  send_log Z (toy_crypt k) (toy_tag tl k) (toy_gcm_enc tl k) (toy_cc_enc tl k) m.
+
+Definition toy_unforgeable (m : emode) (k : Z) := unforgeable Z (toy_crypt k) m.
+
+(* decidable version for concrete runs *)
+Definition toy_unforgeable_b (m : emode) (k : Z) (slog : list (srec Z)) (s : estate Z) : bool :=
+  forallb (fun e => existsb (fun r => (sseq Z r =? vseq e) && zlist_eqb (scov Z r) (covered Z (toy_crypt k) m e) &&
+                                        zlist_eqb (smac Z r) (vmac e)) slog) (elog s).
